@@ -6,7 +6,7 @@ Followed branch by branch from `/repo/forward/{fwd,rewrite,headers,middlewares}.
 and the Director-mode path of `net/http/httputil.ReverseProxy.ServeHTTP` (go 1.23):
 
   clone → Director (`modifyRequest`; `HeaderRewriter.Rewrite`; `protectForwardingHeaders`; host rule)
-        → `upgradeType` → `removeHopByHopHeaders` → `Te: trailers` → upgrade headers → X-Forwarded-For append
+        → `cleanQueryParams` on the query if the request's form had been parsed → `upgradeType` → `removeHopByHopHeaders` → `Te: trailers` → upgrade headers → X-Forwarded-For append
         → `User-Agent` guard → `Transport.RoundTrip` (request line = `URL.RequestURI()`, `Host`, headers)
   response: `removeHopByHopHeaders` → copy headers → status → body copy; error → `utils.DefaultHandler`.
 
@@ -156,6 +156,8 @@ structure Req where
   header : Hdr
   /-- `req.ContentLength` -/
   bodyLen : Nat := 0
+  /-- `req.Form != nil`: somebody in front of the forwarder called `ParseForm` / `FormValue` (nothing in oxy does) -/
+  formParsed : Bool := false
 
 /-- `http.readRequest`: "`req.Host = req.URL.Host; if req.Host == "" { req.Host = Host header }`" — with an
 absolute-form target any Host line is ignored (RFC 7230 §5.4) -/
@@ -297,12 +299,17 @@ def wireHeader (h : Hdr) (method : String) (bodyLen : Nat) : Hdr :=
   if bodyLen > 0 || method = "POST" || method = "PUT" || method = "PATCH" then set h' "Content-Length" (toString bodyLen)
   else h'
 
+/-- `if outreq.Form != nil { outreq.URL.RawQuery = cleanQueryParams(outreq.URL.RawQuery) }` — runs right after the
+Director, on the clone of the incoming request (which carries its `Form`) -/
+def formStep (formParsed : Bool) (u : URL) : URL :=
+  if formParsed then { u with rawQuery := cleanQueryParams u.rawQuery } else u
+
 /-- the proxied request, or `none` when `ServeHTTP` refuses the upgrade type (error handler, 500) -/
 def serve (c : Cfg) (r : Req) : Option Wire :=
   let out := director c r
   if !isPrint (upgradeType out.header) then none
   else some {
-    target := requestURI out.url
+    target := requestURI (formStep r.formParsed out.url)
     proto := outProto
     host := if out.host ≠ "" then out.host else out.url.host
     backend := (out.url.scheme, out.url.host)
@@ -416,5 +423,15 @@ def stateListener (next : Outcome) : List Event × Outcome := execBody next stat
 
 /-- the body before commit f2f1ab2 (kept to show the model tells them apart) -/
 def stateListenerBodyOld : List Stmt := [.call .connected, .next, .call .disconnected]
+
+/-- `ServeHTTP` from the successful `RoundTrip` to its end, for a backend that announced (or would have sent)
+`bodyLen` body bytes and delivered only `sent` of them before the connection broke (`none`: all of them).
+The head (`relay b`) has been written to the client before the first body byte is copied; when `copyResponse`
+fails the handler ends with `panic(http.ErrAbortHandler)` and the client is left with a truncated transfer.
+Result: the head the client was sent, whether the body was completed, how the handler ended. -/
+def relayOutcome (b : Resp) (bodyLen : Nat) (sent : Option Nat) : Resp × Bool × Outcome :=
+  match sent with
+  | some k => if k < bodyLen then (relay b, false, .panic "net/http: abort Handler") else (relay b, true, .ret)
+  | none => (relay b, true, .ret)
 
 end Fwd
